@@ -42,6 +42,118 @@ fn parse_number(a: &[String]) -> (Number, usize) {
     }
 }
 
+fn amount_in(c: &Converter, q: &cooklang::quantity::ScaledQuantity, unit: &str) -> Option<(f64, f64)> {
+    use cooklang::convert::{ConvertTo, ConvertUnit, ConvertValue};
+    let u = q.unit()?;
+    let (s, e) = match q.value() {
+        Value::Number(n) => (n.value(), n.value()),
+        Value::Range { start, end } => (start.value(), end.value()),
+        Value::Text(_) => return None,
+    };
+    let conv = |x: f64| match c.convert(ConvertValue::Number(x), ConvertUnit::Key(u), ConvertTo::Unit(ConvertUnit::Key(unit))) {
+        Ok((ConvertValue::Number(n), _)) => Some(n),
+        _ => None,
+    };
+    Some((conv(s)?, conv(e)?))
+}
+
+fn close(a: f64, b: f64) -> bool {
+    (a - b).abs() <= 1e-9 * (a.abs() + b.abs()) + 1e-12
+}
+
+fn scale_scenario(factor: f64, a: f64, s: f64, e: f64) -> serde_json::Value {
+    use cooklang::scale::ScaleOutcome;
+    let text = format!(
+        ">> servings: 2|4\n@flour{{{a}%g}} @salt{{=1.25%tsp}} @water{{{s}-{e}%l}} @pepper{{some}} @egg{{1 1/2}} #pan{{2}} ~rest{{10%min}} @oil{{=2-3%tbsp}} @sugar{{{a}%zz}} #bowl ~{{5%min}}\n"
+    );
+    let parser = cooklang::CooklangParser::extended();
+    let c = parser.converter().clone();
+    let mut problems: Vec<String> = vec![];
+    let parse = || parser.parse(&text).into_output();
+    let Some(base) = parse() else { return json!({"problems": ["scenario recipe does not parse"], "text": text}) };
+    let names: Vec<String> = base.ingredients.iter().map(|i| i.name.clone()).collect();
+    let sections = base.sections.clone();
+    let meta_servings = base.servings().map(|s| s.to_vec());
+    let run = std::panic::catch_unwind(|| {
+        let mut problems: Vec<String> = vec![];
+        let scaled = parse().unwrap().scale(factor, &c);
+        let data = match scaled.scaled_data() { Some(d) => d, None => { problems.push("scaled recipe reports default scaling".into()); return problems; } };
+        if data.ingredients.len() != scaled.ingredients.len() || data.cookware.len() != scaled.cookware.len() || data.timers.len() != scaled.timers.len() {
+            problems.push("outcome lists do not line up with the components".into());
+            return problems;
+        }
+        if scaled.sections != sections { problems.push("steps/sections changed by scaling".into()); }
+        let got_names: Vec<String> = scaled.ingredients.iter().map(|i| i.name.clone()).collect();
+        if got_names != names { problems.push("ingredient names changed".into()); }
+        let oc = |o: &ScaleOutcome| match o { ScaleOutcome::Scaled => "scaled", ScaleOutcome::Fixed => "fixed", ScaleOutcome::NoQuantity => "noquantity", ScaleOutcome::Error(_) => "error" };
+        let mut expect_amount = |idx: usize, unit: &str, lo: f64, hi: f64, outcome: &str| {
+            let i = &scaled.ingredients[idx];
+            match i.quantity.as_ref().and_then(|q| amount_in(&c, q, unit)) {
+                Some((x, y)) => if !close(x, lo) || !close(y, hi) { problems.push(format!("{}: amount {}..{} {} expected {}..{} (shown as {})", i.name, x, y, unit, lo, hi, i.quantity.as_ref().unwrap())); },
+                None => problems.push(format!("{}: no numeric amount in {}", i.name, unit)),
+            }
+            if oc(&data.ingredients[idx]) != outcome { problems.push(format!("{}: outcome {} expected {}", i.name, oc(&data.ingredients[idx]), outcome)); }
+        };
+        expect_amount(0, "g", a * factor, a * factor, "scaled");
+        expect_amount(1, "tsp", 1.25, 1.25, "fixed");
+        expect_amount(2, "l", s * factor, e * factor, "scaled");
+        expect_amount(5, "tbsp", 2.0, 3.0, "fixed");
+        // text value kept verbatim
+        match scaled.ingredients[3].quantity.as_ref().map(|q| q.value()) {
+            Some(Value::Text(t)) if t == "some" => {}
+            other => problems.push(format!("pepper: text value changed to {:?}", other)),
+        }
+        if oc(&data.ingredients[3]) != "fixed" { problems.push(format!("pepper: outcome {}", oc(&data.ingredients[3]))); }
+        // unitless fraction 1 1/2
+        match scaled.ingredients[4].quantity.as_ref() {
+            Some(q) if q.unit().is_none() => match q.value() { Value::Number(n) if close(n.value(), 1.5 * factor) => {}, v => problems.push(format!("egg: {:?} expected {}", v, 1.5 * factor)) },
+            other => problems.push(format!("egg: {:?}", other)),
+        }
+        // unknown unit: number scaled, unit kept
+        match scaled.ingredients[6].quantity.as_ref() {
+            Some(q) if q.unit() == Some("zz") => match q.value() { Value::Number(n) if close(n.value(), a * factor) => {}, v => problems.push(format!("sugar: {:?} expected {}", v, a * factor)) },
+            other => problems.push(format!("sugar: {:?}", other)),
+        }
+        if oc(&data.ingredients[6]) != "scaled" { problems.push("sugar: outcome".into()); }
+        // cookware: never scaled
+        match scaled.cookware[0].quantity.as_ref() { Some(Value::Number(n)) if n.value() == 2.0 => {}, other => problems.push(format!("pan: quantity {:?} expected 2", other)) }
+        if oc(&data.cookware[0]) != "fixed" { problems.push(format!("pan: outcome {}", oc(&data.cookware[0]))); }
+        if scaled.cookware[1].quantity.is_some() || oc(&data.cookware[1]) != "noquantity" { problems.push("bowl: expected no quantity".into()); }
+        // timers: never scaled
+        for (idx, mins) in [(0usize, 10.0f64), (1, 5.0)] {
+            match scaled.timers[idx].quantity.as_ref().and_then(|q| amount_in(&c, q, "min")) {
+                Some((x, y)) if close(x, mins) && close(y, mins) => {}
+                other => problems.push(format!("timer {}: {:?} expected {} min", idx, other, mins)),
+            }
+            if oc(&data.timers[idx]) != "fixed" { problems.push(format!("timer {}: outcome {}", idx, oc(&data.timers[idx]))); }
+        }
+        // default scaling returns the written values verbatim
+        let d = parse().unwrap().default_scale();
+        if !d.is_default_scaled() { problems.push("default_scale not reported as default".into()); }
+        match d.ingredients[0].quantity.as_ref().map(|q| (q.value().clone(), q.unit().map(|s| s.to_string()))) {
+            Some((Value::Number(n), Some(u))) if n.value() == a && u == "g" => {}
+            other => problems.push(format!("default scale flour: {:?}", other)),
+        }
+        match d.ingredients[2].quantity.as_ref().map(|q| q.value().clone()) {
+            Some(Value::Range { start, end }) if start.value() == s && end.value() == e => {}
+            other => problems.push(format!("default scale water: {:?}", other)),
+        }
+        // servings: scaling to n equals scaling by n / first declared servings
+        if meta_servings.as_deref() != Some(&[2, 4][..]) { problems.push(format!("servings read as {:?}", meta_servings)); }
+        let n = 7u32;
+        let by_servings = parse().unwrap().scale_to_servings(n, &c);
+        let by_factor = parse().unwrap().scale(n as f64 / 2.0, &c);
+        if by_servings.ingredients != by_factor.ingredients { problems.push("scale_to_servings(7) differs from scale(7/2)".into()); }
+        match by_servings.scaled_data() { Some(dd) if close(dd.target.factor(), 3.5) => {}, _ => problems.push("scale_to_servings target factor".into()) }
+        problems
+    });
+    match run {
+        Ok(p) => problems.extend(p),
+        Err(_) => problems.push("panic while scaling".into()),
+    }
+    json!({"problems": problems, "text": text})
+}
+
 fn main() {
     let args: Vec<String> = std::env::args().collect();
     let cmd = args.get(1).map(|s| s.as_str()).unwrap_or("");
@@ -119,6 +231,23 @@ fn main() {
                 Ok(Err(e)) => println!("{}", json!({"err": e.to_string()})),
                 Err(_) => println!("{}", json!({"panic": true})),
             }
+        }
+        "scale_scenario" => {
+            // scale_scenario <factor> <a> <s> <e>: parse a recipe containing every kind of value, scale it through
+            // the public API and compare physical amounts with the documented behaviour.
+            println!("{}", scale_scenario(f(&args[2]), f(&args[3]), f(&args[4]), f(&args[5])));
+        }
+        "parse_report" => {
+            // parse_report <extended|canonical> <text>: diagnostics of a parse through the public API
+            let parser = if args[2] == "canonical" { cooklang::CooklangParser::canonical() } else { cooklang::CooklangParser::extended() };
+            let text = args[3].replace("\\n", "\n");
+            let r = std::panic::catch_unwind(|| {
+                let res = parser.parse(&text);
+                let errors: Vec<String> = res.report().errors().map(|e| e.to_string()).collect();
+                let warnings: Vec<String> = res.report().warnings().map(|e| e.to_string()).collect();
+                json!({"valid": res.is_valid(), "has_output": res.has_output(), "errors": errors, "warnings": warnings})
+            });
+            match r { Ok(v) => println!("{}", v), Err(_) => println!("{}", json!({"panic": true})) }
         }
         "convert_raw" => {
             // convert_raw <value> <ratio_a> <diff_a> <ratio_b> <diff_b>
